@@ -144,6 +144,8 @@ class Norm:
                 r = self.add(b, self.mul(self.indicator(c), self.add(a, b, -1)))
         elif op == "isqrt_v":
             r = self.isqrt_v(self.poly(t.args[0]), self.poly(t.args[1]))
+        elif op == "of_int" and isinstance(t.args[1], T) and t.args[1].op in BOOL_OPS:
+            r = self.indicator(self.cond(t.args[1]))          # Fq::from(b) for a boolean b is the indicator of b
         elif op == "of_int":
             r = self.atom_poly(("of_int", self.opaque(t.args[1])))
         else:
